@@ -276,10 +276,17 @@ func TestReplay(t *testing.T) {
 	if p == "" {
 		t.Skip("no replay requested")
 	}
-	var c Case
-	env, err := vstat.LoadReplay(p, &c)
+	env, err := vstat.LoadReplay(p, nil)
 	if err != nil {
 		t.Fatalf("cannot load %s: %v", p, err)
+	}
+	if strings.HasPrefix(env.Test, "TestC11Reach") { // another case type: reach.go
+		replayReach(t, p)
+		return
+	}
+	var c Case
+	if env, err = vstat.LoadReplay(p, &c); err != nil {
+		t.Fatalf("cannot decode the case of %s: %v", p, err)
 	}
 	structural := strings.HasPrefix(env.Test, "TestC11") || (!strings.HasPrefix(env.Test, "TestC10") && env.Property == propC11)
 	prop := propC10
